@@ -35,6 +35,7 @@ def all_calls():
         out += [("sweep", [a]), ("flag", [a]), ("charge", [a]), ("audit", [a])]
     out.append(("burn", ["o1", "o2", "o3"]))
     out.append(("burn", ["o2", "o1", "o1"]))
+    out += [("reset", []), ("finish", [])]
     return out
 
 
@@ -49,6 +50,9 @@ def plans(tier, seed):
         [("flag", ["o2"]), ("charge", ["o2"]), ("flag", ["o2"])],
         [("charge", ["o1"])],
         [],
+        [("take", ["o1", "o2"]), ("reset", []), ("finish", [])],
+        [("finish", []), ("reset", []), ("drop", ["o1", "o2"])],
+        [("reset", [])],
     ]
     out = list(curated)
     n = 90 if tier == "quick" else 800
@@ -56,6 +60,12 @@ def plans(tier, seed):
         k = rng.choice([1, 2, 2, 3, 3])
         out.append([rng.choice(calls) for _ in range(k)])
     return out
+
+
+def _toks(text):
+    """tokens of an action call, so that '(reset )' (the library's and the planners' print of a parameter-less call)
+    and '(reset)' are the same call"""
+    return str(text).replace("(", " ( ").replace(")", " ) ").split()
 
 
 def line_of(call):
@@ -69,7 +79,7 @@ def run_plan(task):
     stats = Stats()
     try:
         lib.install_math_shim()
-        text = seqsem.ma_domain_text()
+        text = seqsem.ma_domain_text(actions=seqsem.MA_ACTIONS + seqsem.NULLARY_ACTIONS)
         comp = seqsem.Composer(text, G.OBJECTS)
         plan = [(n, list(a)) for n, a in task["plan"]]
         allow = task["allow"]
@@ -124,7 +134,7 @@ def run_plan(task):
             if len(trips) != len(plan):
                 problems.append(f"{len(trips)} triplets for {len(plan)} plan lines")
             for i, (trp, call) in enumerate(zip(trips, plan)):
-                if str(trp.operator) != line_of(call):
+                if _toks(trp.operator) != _toks(line_of(call)):
                     problems.append(f"step {i}: operator {trp.operator} for plan line {line_of(call)}")
                 if i > 0 and trp.previous_state is not trips[i - 1].next_state and not (trp.previous_state == trips[i - 1].next_state):
                     problems.append(f"step {i}: pre-state is not the preceding post-state")
@@ -139,8 +149,9 @@ def run_plan(task):
                 d0 = lib.state_digest(trips[0].previous_state)
                 if d0[0] != init_digest[0] or set(d0[1]) != set(init_digest[1]):
                     problems.append("first pre-state is not the problem's initial state")
-                if len(lines) != 1 + 2 * len(plan) or any(not lines[1 + 2 * i].startswith("(operator: " + line_of(c))
-                                                            for i, c in enumerate(plan)):
+                if len(lines) != 1 + 2 * len(plan) or any(
+                        _toks(lines[1 + 2 * i])[:2] != ["(", "operator:"] or _toks(lines[1 + 2 * i])[2:-1] != _toks(line_of(c))
+                        for i, c in enumerate(plan)):
                     problems.append("exported text does not have one operator line per plan line, in order")
             if problems:
                 _cex(ctx, res, task, comp, sym_atoms, fl_all, "; ".join(problems[:3]), z3.BoolVal(True), structural=True)
@@ -182,7 +193,7 @@ def run_plan(task):
 def replay_plan(task, atoms, fls):
     from fractions import Fraction
     from pddl_plus_parser.exporters import TrajectoryExporter
-    text = seqsem.ma_domain_text()
+    text = seqsem.ma_domain_text(actions=seqsem.MA_ACTIONS + seqsem.NULLARY_ACTIONS)
     comp = seqsem.Composer(text, G.OBJECTS)
     plan = [(n, list(a)) for n, a in task["plan"]]
     allow = task["allow"]
